@@ -78,5 +78,7 @@ package blockchain
 //@ func (bo *BlockOperations) commitBlock(state *state.StateDB, txs types.Transactions, header *types.Header, lastCommit stypes.LastCommitInfo, byzVals []stypes.Evidence) (vals []*types.Validator, info *types.BlockInfo, err error)
 //@   for C09
 //@   modifies *
+//@   opt assumecallreqs
+//@   atcall StateDB.RevertToSnapshot requires [rejectedTxRevertsItsOwnSnapshot] revid == snap
 //@   loop 1:
 //@     invariant [poolExact] gasPool != nil && usedGas != nil && *gasPool + *usedGas == pre(*gasPool + *usedGas)
